@@ -24,6 +24,8 @@ def run(ctx, L, tier):
     G.f9_arithmetic(ctx, L, 'prophyc.generators.cpp_full',
                     ['generate_struct_get_byte_size', 'generate_struct_encode', 'generate_struct_decode'])
     G.union_templates(ctx, L)
+    from . import c05
+    c05.size_ladder(ctx, L)      # encode<E>() sizes its vector with get_byte_size(): a size that disagrees with encode changes the bytes
     c07.generated_decode(ctx, L)
     M.size_formulas(ctx, L)
     M.dynamic_predicates(ctx, L)
